@@ -8,5 +8,5 @@ base=open('/verif/tools/agent_prompt.py').read()
 import re
 body=base[base.index('print(f"""')+len('print(f"""'):base.rindex('""")')]
 text=body.replace('{pid}',pid).replace('{prop}',prop)
-text=text.replace("Task: produce TWO independent source changes","Task (second round: earlier volunteers already tried the most obvious edits, so look for LESS obvious sites - a different function, a rarely used branch, an interaction between two modules, state that survives between calls, an off-by-one on a boundary input): produce TWO independent source changes")
+text=text.replace("Task: produce TWO independent source changes","Task (second round: third round: two earlier rounds of volunteers tried the obvious edits and the first layer of less obvious ones; aim at rarely exercised features and parameters of the package (optional constructor arguments, federations of regions, gold-standard sectors, deposit and money markets, the expectations household, capitalists, step tracing, the initial steady-state search, exogenous scalars and expressions, multi-output firms, several suppliers) and at behaviour that only shows over several periods or several calls): produce TWO independent source changes")
 print(text)
